@@ -388,6 +388,7 @@ def c09(ctx):
         ctx.export_validate("c09x", dict(DATA33, MaxSend=2, MaxFlight=2, MaxTick=1), "fifo-data", drain=True)
         ctx.random_validate("data", 48, 80)
         ctx.random_validate("oneway", 16, 80)
+        ctx.random_validate("rekey", 48, 4)
     else:
         ctx.model("c09-5x4", dict(DATA33, MaxSend=5, MaxFlight=4), inv)
         ctx.model("c09-tick", dict(DATA33, MaxSend=3, MaxFlight=3, MaxTick=2, MaxExtra=2), inv)
@@ -396,6 +397,8 @@ def c09(ctx):
         ctx.random_validate("data", 320, 200)
         ctx.random_validate("oneway", 64, 200)
         ctx.random_validate("life", 160, 120)
+        ctx.random_validate("rekey", 480, 8)
+        ctx.model("c09-refresh", dict(DATA33, MaxSend=2, MaxFlight=3, MaxTick=2, MaxQuery=1), inv, timeout=2400)
 
 
 def c19(ctx):
@@ -445,6 +448,8 @@ def c03(ctx):
     ctx.random_validate("life", 64 if ctx.quick() else 480, 60 if ctx.quick() else 150)
 
 
+_SESSION = [dict(a="Query", p="A"), dict(a="Deliver", p="B"), dict(a="Deliver", p="A"), dict(a="Deliver", p="B"),
+            dict(a="Deliver", p="A"), dict(a="Deliver", p="B")]
 STARTS = {
     "queryA": (dict(PolA=3, PolB=3), [dict(a="Query", p="A")]),
     "queryB-v2": (dict(PolA=1, PolB=3), [dict(a="Query", p="B")]),
@@ -457,6 +462,13 @@ STARTS = {
     "refresh": (dict(PolA=3, PolB=3), [dict(a="Query", p="A"), dict(a="Deliver", p="B"), dict(a="Deliver", p="A"), dict(a="Deliver", p="B"),
                                        dict(a="Deliver", p="A"), dict(a="Deliver", p="B"), dict(a="Tick", p="A"), dict(a="Tick", p="B"),
                                        dict(a="Query", p="B")]),
+    # a new start right after a session was ended (no minute has passed): by the side that ended it, by the
+    # side that was told, and by a Send under required encryption
+    "restart": (dict(PolA=3, PolB=3), _SESSION + [dict(a="End", p="A"), dict(a="Deliver", p="B"), dict(a="Query", p="A")]),
+    "restartB": (dict(PolA=3, PolB=3), _SESSION + [dict(a="End", p="A"), dict(a="Deliver", p="B"), dict(a="Query", p="B")]),
+    "restart-req": (dict(PolA=3 | 4, PolB=3), _SESSION + [dict(a="End", p="A"), dict(a="Deliver", p="B"), dict(a="Send", p="A")]),
+    "restart-both": (dict(PolA=3, PolB=3), _SESSION + [dict(a="End", p="A"), dict(a="End", p="B"), dict(a="Deliver", p="B"), dict(a="Deliver", p="A"),
+                                                      dict(a="Query", p="B")]),
 }
 
 
